@@ -144,6 +144,7 @@ func (m *monitor) runHistory(hc histCase) (judged int, nontrivial bool) {
 		return 0, false
 	}
 	results := make([]stepResult, 0, len(hc.Steps))
+	var held []heldDigest
 	witness := func() any {
 		return map[string]any{"seed": m.r.Seed, "case": hc, "results": results,
 			"how": "steps run in order on one hasher object; a judged step's digest is compared with the one-shot reference of that step's own bytes"}
@@ -310,10 +311,27 @@ func (m *monitor) runHistory(hc histCase) (judged int, nontrivial bool) {
 			if got != want {
 				m.r.Violation(vrun.Sig{"ep": "Calculate", "pre": pre, "cause": cause, "effect": "wrong digest"},
 					fmt.Sprintf("%s %s(%s, chunking %s) = %s, reference %s [%s (%s), step %d of %d on one hasher]", a.Name, ep, st.Content, st.Chunk, got, want, pre, cause, i+1, len(hc.Steps)), witness())
+			} else {
+				held = append(held, heldDigest{got: got, want: want, step: i + 1})
 			}
 			continue
 		}
 		results = append(results, res)
 	}
+	// a digest is a value: the ones which were right when they came back are looked at once more after everything else
+	// that was calculated on the same hasher since
+	for _, h := range held {
+		m.heldRechecked.Add(1)
+		if h.got != h.want {
+			m.r.Violation(vrun.Sig{"ep": "Calculate", "effect": "digest-changed-after-it-was-returned"},
+				fmt.Sprintf("%s: the digest returned by step %d of %d was the reference %s when it came back and reads %s after the later calculations on the same hasher", a.Name, h.step, len(hc.Steps), h.want, h.got), witness())
+			break
+		}
+	}
 	return
+}
+
+type heldDigest struct {
+	got, want string
+	step      int
 }
